@@ -266,6 +266,37 @@ class C05:
                 cmds = ([[sub] + held] if held else []) + [[b"ECHO", b"mid"], [unsub] + asked, [b"ECHO", b"end"], [sub, b"z1", b"z2", b"z1"], [b"PING"]]
                 want = [ks] * len(held) + ["bulk"] + [ku] * len(asked) + ["bulk"] + [ks] * 3 + ["PONG"]
                 scen.append((cmds, want))
+        # the subscriber context (3da8732): while a connection holds a subscription, anything but (P)SUBSCRIBE, (P)UNSUBSCRIBE,
+        # PING and QUIT is answered with an error — still one reply per request, in order.  The expectation follows the source.
+        gate = bool(re.search(r"Can't execute", open(os.path.join(REPO, "src", "network", "server.rs"), encoding="utf-8", errors="replace").read()))
+        self.rep.count("pubsub-pipeline.subscriber-gate-in-source=%s" % gate)
+
+        def gated(cmds, want):
+            if not gate:
+                return want
+            chans, pats, out, i = set(), set(), [], 0
+            for cmd in cmds:
+                name = cmd[0].upper()
+                if name in (b"UNSUBSCRIBE", b"PUNSUBSCRIBE") and len(cmd) == 1:
+                    n = max(len(chans if name == b"UNSUBSCRIBE" else pats), 1)        # one confirmation per name held (at least one)
+                else:
+                    n = (len(cmd) - 1 if name in (b"SUBSCRIBE", b"PSUBSCRIBE", b"UNSUBSCRIBE", b"PUNSUBSCRIBE") else 1)
+                if name not in (b"SUBSCRIBE", b"PSUBSCRIBE", b"UNSUBSCRIBE", b"PUNSUBSCRIBE", b"PING", b"QUIT") and (chans or pats):
+                    out.append("error")
+                else:
+                    out += want[i:i + n]
+                if name == b"SUBSCRIBE":
+                    chans |= set(cmd[1:])
+                elif name == b"PSUBSCRIBE":
+                    pats |= set(cmd[1:])
+                elif name == b"UNSUBSCRIBE":
+                    chans = (chans - set(cmd[1:])) if len(cmd) > 1 else set()
+                elif name == b"PUNSUBSCRIBE":
+                    pats = (pats - set(cmd[1:])) if len(cmd) > 1 else set()
+                i += n
+            return out
+        scen = [(cmds, gated(cmds, want)) for cmds, want in scen]
+
         def kind(rp):
             if rp[0] == "a" and rp[1] and rp[1][0][0] == "b":
                 return rp[1][0][1].decode("latin-1")
